@@ -28,7 +28,7 @@ from wormhole.eventual import EventualQueue  # noqa: E402
 
 log.startLoggingWithObserver(lambda ev: None, setStdout=False)
 OBS_NAMES = ["AllPausedWhenPaused", "NoConnMeansPaused", "NoResumeWhilePaused", "AllResumedAfterDrain", "ThreeSets", "InboundExact",
-             "PullObeys", "NoInternal"]
+             "PullObeys", "NoInternal", "InboundReal"]
 
 
 @implementer(IPushProducer)
@@ -215,6 +215,62 @@ def replay_behaviour(tid, states, producers):
     return w, drift, schedule
 
 
+def inbound_real_probe():
+    """The inbound half on the real L2 object: a subchannel application's pauseProducing() / resumeProducing() must
+    stop and restart the reading of the real DilatedConnectionProtocol (Inbound calls connection.pauseProducing()),
+    and a pause in force is carried over to the replacement connection."""
+    from ..dilreal import RealLinkWorld
+    out = {"raised": [], "gotWhilePaused": 0, "gotAfterResume": 0, "pausedAfterReconnect": False, "gotAfterSecondResume": 0}
+    w = RealLinkWorld()
+    try:
+        w.connect()
+        w.listen("F", "p")
+        p = w.open("L", "p")
+        p.transport.write(b"a")
+        w.pump()
+        app = w.sides["F"].factories["p"].built[0]
+
+        def got():
+            return len([e for e in app.log if e[0] == "data"])
+        base = got()
+
+        def call(name, f):
+            try:
+                f()
+            except Exception as e:
+                out["raised"].append("%s: %s: %s" % (name, type(e).__name__, str(e)[:80]))
+        call("pauseProducing", app.transport.pauseProducing)
+        p.transport.write(b"b")
+        w.pump()
+        out["gotWhilePaused"] = got() - base
+        call("resumeProducing", app.transport.resumeProducing)
+        w.pump()
+        out["gotAfterResume"] = got() - base
+        # a pause in force when the connection is replaced
+        call("pauseProducing", app.transport.pauseProducing)
+        w.cut()
+        w.observe_loss("L")
+        w.observe_loss("F")
+        for _ in range(4):
+            if not w.mailbox_pump():
+                break
+        p.transport.write(b"c")
+        try:
+            w.connect()
+        except Exception as e:
+            out["raised"].append("reconnect: %s: %s" % (type(e).__name__, str(e)[:80]))
+        n0 = got()
+        w.pump()
+        out["pausedAfterReconnect"] = (got() == n0)
+        call("resumeProducing", app.transport.resumeProducing)
+        w.pump()
+        out["gotAfterSecondResume"] = got() - n0
+        out["raised"] += [repr(e)[:100] for e in w.logged] + [repr(e)[:100] for s_ in w.sides.values() for e in s_.errors]
+    finally:
+        w.close()
+    return out
+
+
 def pull_producer_probe():
     """A pull producer (PullToPush) is driven by the cooperator only while the connection is writable."""
     reactor.reset()
@@ -317,11 +373,13 @@ def run(prop, tier):
             for g_, tr in wit:
                 behaviours.append(("tlc-witness:" + g_, tr, consts["Producers"]))
         pull = pull_producer_probe()
+        inreal = inbound_real_probe()
+        cov["inbound_real_probe"] = inreal
         for origin, tr, producers in behaviours:
             tid += 1
             w, drift, schedule = replay_behaviour(tid, tr, producers)
             rec = {"tid": tid, "origin": origin, "checkpoints": w.checkpoints, "resumedWhilePaused": w.resumed_while_paused,
-                   "internal": w.errors, "pull": pull}
+                   "internal": w.errors, "pull": pull, "inboundReal": inreal}
             records.append(rec)
             meta[tid] = {"schedule": schedule, "producers": sorted(producers)}
             if drift:
